@@ -233,8 +233,10 @@ private:
     // stop adding work
     auto oldState = opState_.fetch_and(~stoppedBit, std::memory_order_release);
 
-    if (op_count(oldState) == 0) {
-      // there are no outstanding operations to wait for
+    if (!is_stopping(oldState) && op_count(oldState) == 0) {
+      // this call ended the scope and there are no outstanding operations to
+      // wait for; if the scope had already ended, the event is (or will be)
+      // set by whoever observed the transition to "ended and idle"
       evt_.set();
     }
   }
